@@ -31,7 +31,7 @@ LEVEL_NOTE = ("Trusted: simulator's socket model (a failed call also ends the "
               "peer's inbound stream after the bytes already sent).  Faults "
               "are EOF/ECONNRESET/EPIPE at call granularity; partial sends "
               "followed by failure arise on the 1-byte transport.")
-BUDGET = {"quick": 60, "thorough": 1500}
+BUDGET = {"quick": 300, "thorough": 1500}
 CHUNK = 16
 PROBES = ["fault_eof", "fault_reset", "fault_epipe", "in_handshake",
           "in_data", "in_close", "alert_close_notify", "alert_warning",
